@@ -81,3 +81,64 @@ pub fn sweep_u32(ctx: &mut Ctx, name: &'static str, key: &str, full: bool, evals
         });
     }
 }
+
+/// Counting global allocator (O7 ledger): live allocation count, and an
+/// optional per-thread log of (ptr, size, align, is_alloc).
+pub mod ledger {
+    use std::alloc::{GlobalAlloc, Layout, System};
+    use std::cell::{Cell, RefCell};
+    use std::sync::atomic::{AtomicI64, Ordering};
+
+    pub struct Counting;
+    pub static LIVE: AtomicI64 = AtomicI64::new(0);
+    thread_local! {
+        static REC: Cell<bool> = const { Cell::new(false) };
+        static TLIVE: Cell<i64> = const { Cell::new(0) };
+        static LOG: RefCell<Vec<(usize, usize, usize, bool)>> = const { RefCell::new(Vec::new()) };
+    }
+    unsafe impl GlobalAlloc for Counting {
+        unsafe fn alloc(&self, l: Layout) -> *mut u8 {
+            let p = System.alloc(l);
+            let _ = TLIVE.try_with(|c| c.set(c.get() + 1));
+            log(p as usize, l, true);
+            p
+        }
+        unsafe fn dealloc(&self, p: *mut u8, l: Layout) {
+            let _ = TLIVE.try_with(|c| c.set(c.get() - 1));
+            log(p as usize, l, false);
+            System.dealloc(p, l)
+        }
+        unsafe fn realloc(&self, p: *mut u8, l: Layout, n: usize) -> *mut u8 {
+            let q = System.realloc(p, l, n);
+            log(p as usize, l, false);
+            log(q as usize, Layout::from_size_align_unchecked(n, l.align()), true);
+            q
+        }
+    }
+    fn log(p: usize, l: Layout, is_alloc: bool) {
+        let _ = REC.try_with(|r| {
+            if r.get() {
+                r.set(false); // the log's own growth must not recurse
+                let _ = LOG.try_with(|g| g.borrow_mut().push((p, l.size(), l.align(), is_alloc)));
+                r.set(true);
+            }
+        });
+    }
+    /// Net number of live allocations made by the calling thread.
+    pub fn live() -> i64 {
+        let _ = LIVE.load(Ordering::Relaxed);
+        TLIVE.with(|c| c.get())
+    }
+    /// Record every allocator call made by `f` on this thread.
+    pub fn record<T>(f: impl FnOnce() -> T) -> (T, Vec<(usize, usize, usize, bool)>) {
+        LOG.with(|g| {
+            let mut g = g.borrow_mut();
+            g.clear();
+            g.reserve(64);
+        });
+        REC.with(|r| r.set(true));
+        let v = f();
+        REC.with(|r| r.set(false));
+        (v, LOG.with(|g| g.borrow().clone()))
+    }
+}
